@@ -39,18 +39,19 @@ def perl_part(ctx):
 def py_part(ctx):
     cs = PB.cases(ctx)
     # 1. model vs implementation
-    res = common.compare_parallel('harness.fmt_pybrace', 'impl', [(PB.line(s), s) for s in cs], per_case_timeout=20)
+    res = common.compare_parallel('harness.fmt_pybrace', 'impl', [(PB.line(s), s) for s in cs], per_case_timeout=5)
     ctx.evaluations += len(res)
     for (line, s, m, r) in res:
         ctx.count('py:' + (' '.join(r.split(' ')[:2]) if not r.startswith('ok') else 'ok'))
         if r.startswith('ok') and len(r) > 3:
             ctx.nontriv(('py', s))
         if r == 'timeout':
-            continue          # judged by the timing families
+            ctx.count('py:timeout')
+            continue          # slow cases are judged by the timing families (D4)
         if m != r:
             ctx.disagree('pybrace', {'s': s[:200]}, m[:300], r[:300])
     # 2. the property on the implementation, judged by the live interpreter
-    verdicts = common.pmap('harness.fmt_pybrace', 'oracle', cs, per_case_timeout=20)
+    verdicts = common.pmap('harness.fmt_pybrace', 'oracle', cs, per_case_timeout=5)
     ctx.evaluations += len(verdicts)
     for s, v in zip(cs, verdicts):
         if v is not None and v != 'timeout':
